@@ -166,6 +166,38 @@ pub async fn run(out: &mut Out) {
             }
         }
     }
+    // header lines: every shape of key / separator / value around the `: ` delimiter, at every header position of request and
+    // response heads (through the plain readers, h11c_connect and h11c_handshake)
+    {
+        let keys: [&[u8]; 6] = [b"", b"X", b"Host", b"Session-Id", b"Proxy-Protocol", b" K"];
+        let seps: [&[u8]; 8] = [b":", b": ", b":  ", b" : ", b":\t", b"", b" ", b"::"];
+        let vals: [&[u8]; 7] = [b"", b" ", b"v", b"7", b"udp", b"\xc3\xa9", b"a: b"];
+        let ends: [&[u8]; 3] = [b"\r\n", b"\n", b" \r\n"];
+        for k in keys.iter() {
+            for sp in seps.iter() {
+                for v in vals.iter() {
+                    for e in ends.iter() {
+                        let mut line = k.to_vec();
+                        line.extend_from_slice(sp);
+                        line.extend_from_slice(v);
+                        line.extend_from_slice(e);
+                        for (kind, first) in [(2usize, &b"CONNECT example.com:80 HTTP/1.1\r\n"[..]), (3, &b"HTTP/1.1 200 OK\r\n"[..]), (8, &b"HTTP/1.1 200 OK\r\n"[..]), (9, &b"CONNECT example.com:80 HTTP/1.1\r\n"[..])] {
+                            for before in [false, true] {
+                                let mut m = first.to_vec();
+                                if before {
+                                    m.extend_from_slice(b"Host: x\r\n");
+                                }
+                                m.extend_from_slice(&line);
+                                m.extend_from_slice(b"\r\n");
+                                feed(out, kind, &m, &mut rng).await;
+                                out.stat("header_line_grid");
+                            }
+                        }
+                    }
+                }
+            }
+        }
+    }
     // RPFM address attributes: every (tag, len) with short and long values
     for tag in 0..=5u8 {
         for len in 0..=255u8 {
